@@ -2,7 +2,7 @@
 // Breadth-first exploration over MODEL states: every (state, operation) pair reached within the depth bound is
 // executed on the real decay0_generator by replaying the shortest call sequence that reaches the state, and after
 // every call the implementation is compared with the model (exception thrown <=> model says so, all getters).
-// usage: c09_protocol <seed> <max_depth> <with_expensive 0|1>
+// usage: c09_protocol <seed> <max_depth> <with_expensive 0|1> [probe shard] [probe shards] [alphabet 0|1] [truncated gA dir] [valid gA dir]
 #include <cmath>
 #include <cstdlib>
 #include <deque>
@@ -33,9 +33,12 @@ struct Model
   int nops = 0;
   int evcount = 0;
   bool version_set = false;
+  int ga = 0; // gA data directory in the environment: 0 none, 1 truncated table, 2 valid (environment, not generator state: reset keeps it)
+  int ga_failed = 0; // history marker, not observable state: bit k set once a gA initialisation failed on data kind k (kept across reset), so
+                     // that the breadth-first search extends each of these histories instead of merging them into one model state
   std::string key() const
   {
-    return fmt("%d|%d|%s|%d|%d|%d%d|%g|%g|%d|%d|%d", init, cat, iso.c_str(), level, mode, has_min, has_max, emin, emax, nops, evcount, version_set);
+    return fmt("%d|%d|%s|%d|%d|%d%d|%g|%g|%d|%d|%d|%d", init, cat, iso.c_str(), level, mode, has_min, has_max, emin, emax, nops, evcount, version_set, ga * 8 + ga_failed);
   }
 };
 
@@ -60,7 +63,7 @@ static bool init_valid(const Model & m)
   if (m.level == -1) return false;
   if (m.has_min && m.has_max && !(m.emin < m.emax)) return false; // a half-open window (one limit NaN) is a legal request
   if ((m.has_min || m.has_max) && !window_capable(m.mode)) return false;
-  if (m.mode >= 21) return false; // gA data are not installed in this harness: unreadable resource
+  if (m.mode >= 21) return m.iso == "Mo100" && m.level == 0 && m.ga == 2; // gA: data readable and complete, ground state
   const double lo = std::max(m.has_min ? m.emin : 0.0, 0.0), hi = m.has_max ? m.emax : 1e9;
   if (m.iso == "Mo100") {
     if (m.mode == 1) return m.level == 0;
@@ -88,7 +91,9 @@ static bool throws(F f)
   }
 }
 
-static std::vector<Op> alphabet(bool with_expensive)
+static std::string g_ga_dir[3]; // none / truncated / valid
+
+static std::vector<Op> alphabet(bool with_expensive, int which)
 {
   std::vector<Op> ops;
   auto setter = [&](const std::string & n, std::function<void(decay0_generator &)> f, std::function<void(Model &)> g) {
@@ -150,7 +155,10 @@ static std::vector<Op> alphabet(bool with_expensive)
                                     && !((m.has_min || m.has_max) && !window_capable(m.mode));
                    }
                    if (reaches_init) m.version_set = true;
-                   if (!init_valid(m)) return true;
+                   if (!init_valid(m)) {
+                     if (reaches_init && m.mode >= 21 && m.iso == "Mo100" && m.level == 0 && m.ga != 2) m.ga_failed |= (1 << m.ga);
+                     return true;
+                   }
                    m.init = true;
                    return false;
                  }});
@@ -162,9 +170,34 @@ static std::vector<Op> alphabet(bool with_expensive)
                  }});
   ops.push_back({"reset", [](decay0_generator & G, Tape &, bxdecay0::event &) { return throws([&] { G.reset(); }); },
                  [](Model & m) {
+                   int ga = m.ga, gf = m.ga_failed;
                    m = Model();
+                   m.ga = ga;
+                   m.ga_failed = gf;
                    return false;
                  }});
+  if (which == 1) {
+    // gA-focused alphabet: the data directory named by the environment is part of the history (none / a table cut after a few rows /
+    // a complete one); a failed initialisation on the cut table must leave nothing behind in the generator
+    static const char * keep[] = {"set_decay_category(DBD)", "set_decay_isotope(Mo100)", "set_decay_dbd_level(0)", "set_decay_dbd_level(1)", "set_decay_dbd_mode(1)",
+                                  "set_decay_dbd_mode(21)", "initialize", "shoot", "reset"};
+    std::vector<Op> sel;
+    for (auto & o : ops)
+      for (const char * k : keep)
+        if (o.name == k) sel.push_back(o);
+    ops.swap(sel);
+    for (int k = 0; k < 3; k++) {
+      static const char * nm[] = {"gA data: none", "gA data: truncated table", "gA data: complete table"};
+      ops.push_back({nm[k], [k](decay0_generator &, Tape &, bxdecay0::event &) {
+                       setenv("BXDECAY0_DBD_GA_DATA_DIR", g_ga_dir[k].c_str(), 1);
+                       return false;
+                     },
+                     [k](Model & m) {
+                       m.ga = k;
+                       return false;
+                     }});
+    }
+  }
   return ops;
 }
 
@@ -205,7 +238,13 @@ int main(int argc, char ** argv)
   // the behavioural reset probes (expensive: two initialisations each) are shared out over processes; every process walks the whole model
   const int pshard = argc > 4 ? atoi(argv[4]) : 0, pshards = argc > 5 ? atoi(argv[5]) : 1;
   long probes = 0;
-  std::vector<Op> ops = alphabet(with_exp);
+  const int which = argc > 6 ? atoi(argv[6]) : 0;
+  if (which == 1 && argc > 8) {
+    g_ga_dir[0] = "/nonexistent/bxdecay0-gA-data";
+    g_ga_dir[1] = argv[7];
+    g_ga_dir[2] = argv[8];
+  }
+  std::vector<Op> ops = alphabet(with_exp, which);
   std::map<std::string, std::vector<int>> seq_of; // model state -> shortest op sequence
   std::deque<std::string> frontier;
   Model m0;
@@ -243,6 +282,9 @@ int main(int argc, char ** argv)
       Tape t(seed, 90 + oi);
       bxdecay0::event ev;
       bool diverged = false;
+      // every replay starts from the same environment.  ("none" is a directory that does not exist: the library keeps the last
+      // directory it saw when the variable is removed, which is outside what the property speaks about)
+      if (which == 1) setenv("BXDECAY0_DBD_GA_DATA_DIR", g_ga_dir[0].c_str(), 1);
       for (size_t k = 0; k < s.size(); k++) {
         Model before = m;
         bool mt = ops[s[k]].model(m);
@@ -251,6 +293,7 @@ int main(int argc, char ** argv)
           Model keep = m;
           m = before;
           m.version_set = keep.version_set;
+          m.ga_failed = keep.ga_failed;
         }
         bool it = ops[s[k]].impl(*G, t, ev);
         calls++;
@@ -322,6 +365,43 @@ int main(int argc, char ** argv)
             G->shoot(t2, e2);
           });
           if (bad) fail("unusable-after-failed-initialize", s, "after the failed initialize, reset() + a valid Mo100/0/mode 1 configuration cannot be initialised and shot");
+        }
+        if (!diverged && ops[s[k]].name == "initialize" && !it && !mt && (int)(hash_str(before.key()) % (uint64_t)pshards) == pshard) {
+          // whatever the history (failed initialisations, resets, other settings before), the generator now behaves like a fresh
+          // instance given the same settings: same full/window ratio and bit-identical events from identical tapes
+          probes++;
+          decay0_generator F;
+          std::string how;
+          bool fthrows = throws([&] {
+            F.set_decay_category(m.cat == 1 ? decay0_generator::DECAY_CATEGORY_DBD : decay0_generator::DECAY_CATEGORY_BACKGROUND);
+            F.set_decay_isotope(m.iso);
+            if (m.cat == 1) {
+              if (m.level != -1) F.set_decay_dbd_level(m.level);
+              F.set_decay_dbd_mode((bxdecay0::dbd_mode_type)m.mode);
+              if (m.has_min || m.has_max)
+                F.set_decay_dbd_esum_range(m.has_min ? m.emin : std::numeric_limits<double>::quiet_NaN(), m.has_max ? m.emax : std::numeric_limits<double>::quiet_NaN());
+            }
+            for (int i = 0; i < m.nops; i++) {
+              auto op = std::make_shared<bxdecay0::momentum_direction_lock_event_op>();
+              op->set(bxdecay0::ELECTRON, 0, 0.0, 0.0, 1.0, 0.3, false);
+              F.add_operation(op);
+            }
+            Tape t3(seed, 4);
+            F.initialize(t3);
+          });
+          if (fthrows) {
+            fail("differs-from-fresh-instance", s, "a fresh instance with the same settings does not initialise");
+          } else {
+            if (!(G->get_to_all_events() == F.get_to_all_events())) how += fmt("toallevents %.17g vs fresh %.17g; ", G->get_to_all_events(), F.get_to_all_events());
+            for (int i = 0; i < 3 && how.empty(); i++) {
+              Tape ta(seed, 700 + i), tb(seed, 700 + i);
+              bxdecay0::event ea, eb;
+              bool xa = throws([&] { G->shoot(ta, ea); }), xb = throws([&] { F.shoot(tb, eb); });
+              if (xa != xb || ta.pos != tb.pos || !events_bit_identical(ea, eb, false))
+                how += fmt("event %d from the same tape differs (draws %zu vs %zu): ", i, ta.pos, tb.pos) + event_json(ea).substr(0, 200) + " vs fresh " + event_json(eb).substr(0, 200);
+            }
+            if (!how.empty()) fail("differs-from-fresh-instance", s, how);
+          }
         }
         if (!diverged && ops[s[k]].name == "shoot" && !it) {
           if (ev.get_particles().empty()) fail("empty-event", s, "shoot returned an empty event");
